@@ -145,7 +145,7 @@ type c09Case struct {
 }
 
 func (p *c09) Bounds(tier string) map[string]interface{} {
-	return map[string]interface{}{"depth": c09Depth(tier), "alphabet": len(c09Alphabet), "stores": append(append([]string{}, store.Impls...), "node-struct", "node-structmap"), "sources": []string{"json", "ref", "xml"}, "schema": "choice (flat with leaf/container/list/shorthand cases, nested choice in a case, choice inside a list entry)"}
+	return map[string]interface{}{"depth": c09Depth(tier), "alphabet": len(c09Alphabet), "stores": append(append([]string{}, store.Impls...), "node-struct", "node-structmap", "node-structembed"), "sources": []string{"json", "ref", "xml"}, "schema": "choice (flat with leaf/container/list/shorthand cases, nested choice in a case, choice inside a list entry)"}
 }
 
 func c09Depth(tier string) int {
@@ -161,7 +161,7 @@ func (p *c09) Cases(tier string, emit func(interface{})) {
 	}
 	// nodeutil.Reflect over Go structs does not implement choices (every read fails with
 	// "OnChoose not implemented"): only nodeutil.Node serves the struct-backed stores here
-	for _, st := range append(append([]string{}, store.Impls...), "node-struct", "node-structmap") {
+	for _, st := range append(append([]string{}, store.Impls...), "node-struct", "node-structmap", "node-structembed") {
 		for _, src := range []string{"json", "ref", "xml"} {
 			emit(c09Case{Part: "bfs", Store: st, Source: src, Depth: c09Depth(tier)})
 			emit(c09Case{Schema: "choiceaug", Part: "bfs", Store: st, Source: src, Depth: c09Depth(tier)})
